@@ -18,12 +18,18 @@ def _call(fn, *a, **k):
 
 
 def _replay_case(ctx, dutils, c, offset, scale):
-    ix = np.array(c["ix"], dtype=np.int64) + offset
+    ix = np.array(c["ix"], dtype=np.int64) + (0 if offset == "spread" else offset)
+    if offset == "spread":
+        # strictly increasing map of the index values onto the whole int32 range: same groups,
+        # same (non-)monotonicity, consecutive differences beyond 2^31
+        v = np.array(c["ix"], dtype=np.int64)
+        step = (2**32 - 2) // max(1, int(v.max() - v.min()))
+        ix = -2**31 + 1 + (v - v.min()) * step
     xs = np.array([np.nan if v == NAN else v * scale for v in c["xs"]], dtype=np.float64)
     xs0 = xs.copy()
     ix0 = ix.copy()
     out, e = _call(dutils.aggregate, ix, xs, c["op"], c["maxnan"])
-    case = dict(c, offset=int(offset), scale=scale)
+    case = dict(c, offset=offset if offset == "spread" else int(offset), scale=scale)
     if c["err"]:
         if e is None:
             ctx.violation("aggregate:decreasing-index-accepted", "index decreases but no error", case)
@@ -89,6 +95,8 @@ def spec_to_code(ctx, dutils):
         _replay_case(ctx, dutils, c, OFFSETS[h % len(OFFSETS)], SCALES[(h // 7) % len(SCALES)])
         if h % 5 == 0:
             _replay_case(ctx, dutils, c, 0, 1.0)
+        if h % 3 == 0 and len(set(c["ix"])) > 1:
+            _replay_case(ctx, dutils, c, "spread", 1.0)
         n += 1
         nontriv = (not c["err"]) and len(set(c["ix"])) < len(c["ix"])
         ctx.count(c, nontriv)
@@ -106,6 +114,13 @@ def _rand_case(rng, maxlen):
         inc[int(rng.integers(1, n))] = -1
     start = int(rng.choice([0, -4, 199501, -2**31 + 5, 2**31 - 1 - 6 * n]))
     ix = start + np.cumsum(inc) - inc[0]
+    if rng.random() < 0.15:
+        # jumps larger than 2^31 between consecutive index values
+        u = np.unique(ix)
+        step = (2**32 - 2) // max(1, len(u))
+        dec = np.any(np.diff(ix) < 0)
+        if not dec:
+            ix = -2**31 + 1 + np.searchsorted(u, ix) * step
     vals = rng.integers(-20, 21, size=n).astype(float)
     pn = rng.choice([0.0, 0.1, 0.5])
     mask = rng.random(n) < pn
